@@ -139,6 +139,13 @@ def run(case):
         rng = np.random.RandomState(case["seed"])
         X = rng.randn(6, 4) * (10.0 ** rng.randint(-3, 4))
         X[rng.randint(6)] = 0.0
+        # sparse rows: exact zeros among the coordinates of a non-zero row, integer-valued rows, a one-hot row
+        X[rng.randint(6), rng.randint(4)] = 0.0
+        r = rng.randint(6)
+        X[r] = [3.0, 0.0, 4.0, 0.0]
+        r2 = (r + 1 + rng.randint(5)) % 6
+        X[r2] = 0.0
+        X[r2, rng.randint(4)] = rng.choice([1.0, -2.0, 5.0])
         N = d.l2_normalize(X)
         norms = np.sqrt((N ** 2).sum(axis=1))
         zero = (X == 0).all(axis=1)
